@@ -291,7 +291,10 @@ where
                     let mut props = vec![
                         PropOrSpread::Prop(Box::new(Prop::KeyValue(KeyValueProp {
                             key: PropName::Ident(quote_ident!("type")),
-                            value: Box::new(if ir.types.len() == 1 {
+                            value: Box::new(if ir.types.contains(&Some(atom!("any"))) {
+                                // `any` / `unknown` somewhere in the type: every value is allowed
+                                Expr::Lit(Lit::Null(Null { span: DUMMY_SP }))
+                            } else if ir.types.len() == 1 {
                                 if let Some(ty) = ir.types.pop().unwrap() {
                                     Expr::Ident(quote_ident!(ty).into())
                                 } else {
@@ -981,6 +984,9 @@ where
                 }
                 TsKeywordTypeKind::TsSymbolKeyword => {
                     runtime_types.insert(Some(atom!("Symbol")));
+                }
+                TsKeywordTypeKind::TsAnyKeyword | TsKeywordTypeKind::TsUnknownKeyword => {
+                    runtime_types.insert(Some(atom!("any")));
                 }
                 _ => {
                     runtime_types.insert(None);
